@@ -2,9 +2,11 @@
 # tools/seedeval.sh <Cxx> [checks...]  — confirm a sub-agent's seeded change myself in a scratch worktree, then run checks against it
 id=$1; shift
 checks=${@:-$id}
-out=/tmp/seed_${id}_out
-dst=/verif/seeded/$id
-wt=/tmp/ev_$id
+# SEED_SRC: directory with the sub-agent's deliverables (default /tmp/seed_<id>_out); SEED_NAME: directory name under seeded/
+out=${SEED_SRC:-/tmp/seed_${id}_out}
+name=${SEED_NAME:-$id}
+dst=/verif/seeded/$name
+wt=/tmp/ev_${SEED_NAME:-$id}
 mkdir -p $dst
 cp $out/patch.diff $dst/patch.diff
 for f in demo.sh demo.cpp notes.md; do [ -f $out/$f ] && cp $out/$f $dst/; done
